@@ -257,7 +257,10 @@ func ReadPatchString(s string) (Diff, error) {
 			diff = append(diff, e)
 		} else {
 			i := len(diff) - 1
-			if diff[i].Path.JsonNode().Equals(e.Path.JsonNode()) && !hasPatchContext(e) {
+			// A removal read after an addition starts a new hunk: within
+			// a hunk removals apply first, which would reorder the ops.
+			reorders := len(e.Remove) > 0 && len(diff[i].Add) > 0
+			if diff[i].Path.JsonNode().Equals(e.Path.JsonNode()) && !hasPatchContext(e) && !reorders {
 				diff[i].Remove = append(diff[i].Remove, e.Remove...)
 				if isAppendPath(e.Path) {
 					// Successive appends stay in order
